@@ -348,6 +348,8 @@ def main(tier, seed):
                 break
     multi_input_section(rep, ap, rng, tier)
     complex_replay_section(rep, ap, rng, tier)
+    import r12
+    r12.c05_projection_nodes(rep, ap, rng, tier)
     same_object_section(rep, ap, rng, tier)
     constant_index_section(rep, ap, rng, tier)
     verdicts, logs = lib.eval_bool_cases(PID, tm.IMPORTS, tm.DEFS, terms, per_file=40)
